@@ -328,6 +328,7 @@ func checkC04(c *Ctx) {
 	c.checkBuiltinsNeutral("C04-USR")
 	c.checkLoopScopeDepth("ES-S")
 	c.checkRunBrackets()
+	c.checkIdleGrowth("C04-GROW")
 	c.checkStackmarkIdentity("C04-MARK")
 	c.checkGeneratorCtors("ES-CTOR")
 	c.checkParserStopOrder("C04-STOP")
@@ -1190,6 +1191,158 @@ func (c *Ctx) checkLastFormKeepsTail(rule string) {
 			if strings.Contains(t.fn, os.Getenv("ZY_ES_DUMP")) && t.what == "return" {
 				fmt.Fprintf(os.Stderr, "TEMPLATE %s: %s\n", t.fn, seqString(t.seq))
 			}
+		}
+	}
+}
+
+// checkIdleGrowth: C04-GROW. "An idle interpreter does not grow with the number
+// of evaluations it has served." Three structural places where it did:
+//
+//   - the code of every text ever loaded stayed in the main function: the
+//     loader appends to mainfunc.fun. The routine that appends must, when the
+//     interpreter is at rest (the test goes through ReachedEnd), start the main
+//     function afresh before it appends.
+//   - a builder bound every anonymous function under a generated name in the
+//     scope it ran in: a name made by GenSymbol is bound (LexicalBindSymbol)
+//     only on a path that a test has shown not to be the anonymous case.
+//   - every compilation of fn / for / package / range interns a fresh symbol
+//     (GenSymbol in the generator and the infix expander), and nothing ever
+//     leaves the symbol tables: reported per routine (recorded findings).
+func (c *Ctx) checkIdleGrowth(rule string) {
+	mainF := c.mustField(rule, "Zlisp", "mainfunc")
+	funF := c.mustField(rule, "SexpFunction", "fun")
+	reached := c.mustFn(rule, "Zlisp.ReachedEnd")
+	if mainF == nil || funF == nil || reached == nil {
+		return
+	}
+	n := 0
+	for _, f := range c.zygoFuncs() {
+		eachInstr(f, func(b *ssa.BasicBlock, i int, in ssa.Instruction) {
+			st, ok := in.(*ssa.Store)
+			if !ok {
+				return
+			}
+			fa, ok := st.Addr.(*ssa.FieldAddr)
+			if !ok || faField(fa) != funF {
+				return
+			}
+			if _, isMain := loadOfField(fa.X, mainF); !isMain {
+				return
+			}
+			call, ok := st.Val.(*ssa.Call)
+			if !ok {
+				return
+			}
+			if bi, ok := call.Call.Value.(*ssa.Builtin); !ok || bi.Name() != "append" {
+				return
+			}
+			n++
+			// a store of a new main function, under a test that asks ReachedEnd, on the way to the append
+			fresh := false
+			eachInstr(f, func(b2 *ssa.BasicBlock, j int, x ssa.Instruction) {
+				st2, ok := x.(*ssa.Store)
+				if !ok {
+					return
+				}
+				fa2, ok := st2.Addr.(*ssa.FieldAddr)
+				if !ok || faField(fa2) != mainF {
+					return
+				}
+				if !(b2 == b || blockReaches(b2, b)) {
+					return
+				}
+				atRest := guardedBy(b2, func(cond ssa.Value) (bool, bool) {
+					if cl, ok := cond.(*ssa.Call); ok && cl.Call.StaticCallee() == reached {
+						return true, true
+					}
+					return false, false
+				})
+				if atRest {
+					fresh = true
+				}
+			})
+			c.check(fresh, rule, fnName(f), "finished code dropped before more is appended", in.Pos(),
+				"when the interpreter is at rest the main function is started afresh before the new code is appended",
+				"the code of every text is appended to the main function and nothing but Clear ever removes it: an idle interpreter keeps the instructions and constants of every evaluation it has served")
+		})
+	}
+	if n == 0 {
+		c.undecided(rule, "package", "appends to the main function", token.NoPos, "no append to mainfunc.fun found (LoadExpressions confirmed by reading)")
+	}
+	gensym := c.fn("Zlisp.GenSymbol")
+	bind := c.fn("Zlisp.LexicalBindSymbol")
+	genT := c.named("Generator")
+	if gensym == nil || bind == nil {
+		return
+	}
+	for _, f := range c.zygoFuncs() {
+		gs := callsOf(f, gensym)
+		if len(gs) == 0 {
+			continue
+		}
+		// (b) a generated name that is bound
+		for _, bs := range callsOf(f, bind) {
+			args := bs.Common().Args
+			if len(args) < 2 {
+				continue
+			}
+			fromGen := false
+			for _, leaf := range phiLeaves(args[1]) {
+				if cl, ok := leaf.(*ssa.Call); ok && cl.Call.StaticCallee() == gensym {
+					fromGen = true
+				}
+			}
+			if !fromGen {
+				continue
+			}
+			// guarded by a boolean that is true exactly on the paths that made the name up? accept any test of a
+			// phi of constants whose generated-name edge is excluded: simply, the bind is not reachable from the
+			// GenSymbol call without passing a conditional that separates the two
+			sep := false
+			for _, g := range gs {
+				if !blockReaches(g.Block(), bs.Block()) && g.Block() != bs.Block() {
+					sep = true
+					continue
+				}
+				if guardedBy(bs.Block(), func(cond ssa.Value) (bool, bool) {
+					// a flag set to true next to the GenSymbol call
+					for _, leaf := range phiLeaves(cond) {
+						if k, ok := leaf.(*ssa.Const); ok && k.Value != nil && k.Value.String() == "true" {
+							if ph, ok := cond.(*ssa.Phi); ok {
+								for ei, e := range ph.Edges {
+									if e == leaf && ei < len(ph.Block().Preds) && (ph.Block().Preds[ei] == g.Block() || blockReaches(g.Block(), ph.Block().Preds[ei])) {
+										return true, false
+									}
+								}
+							}
+						}
+					}
+					return false, false
+				}) {
+					sep = true
+				}
+			}
+			c.check(sep, rule, fnName(f), "a generated name is not bound", bs.Pos(),
+				"the binding is made only on the paths on which the name was given, not generated",
+				"a name made up by GenSymbol for an anonymous function is bound in the scope the builder runs in, where nothing can refer to it and nothing removes it: every evaluation of an anonymous (func ...) leaves one more binding behind")
+		}
+		// (c) fresh symbols per compilation
+		// (a symbol the script asked for -- the gensym builtin hands it back as its result -- is the script's business)
+		asked := false
+		for _, r := range returnsOf(f) {
+			for _, leaf := range phiLeaves(r.Results[0]) {
+				if mi, ok := leaf.(*ssa.MakeInterface); ok {
+					leaf = mi.X
+				}
+				if cl, ok := leaf.(*ssa.Call); ok && cl.Call.StaticCallee() == gensym {
+					asked = true
+				}
+			}
+		}
+		_ = genT
+		if !asked {
+			c.bad(rule, fnName(f), "interns a fresh symbol per compilation", gs[0].Pos(),
+				"each compilation of this form interns a new generated symbol, and nothing ever leaves the symbol tables: the interpreter grows with the number of evaluations (arguments are compiled every time a call runs, so a loop that passes a (fn ...) interns one symbol per iteration)")
 		}
 	}
 }
